@@ -26,6 +26,10 @@ What is a site (one row per syntactic occurrence):
   rng-param-kwargs  same, but the call has *args / **kwargs (cannot be verified)  numpyGlobal
   rng-func-ref      a scanned function that has an RNG parameter is passed as a    numpyGlobal
                     value (e.g. to fmin_l_bfgs_b): the argument cannot be verified
+  ext-param-omitted a THIRD-PARTY callable that has a `random_state` parameter      numpyGlobal
+                    (scikit-learn estimators / transformers / utilities, imported by name in the
+                    file) is called without it: its default None = NumPy's global generator
+  ext-param         same, `random_state=<expr>` given                             seeded
   rng-method        <rng>.randint/rand/choice/... on an explicit generator object seeded
   seed-call         <expr>.seed(<expr>)  (ConfigSpace seeding)                    seeded
   seed-kw           f(..., seed=<expr>)  (a seed handed to an external library)   seeded
@@ -36,9 +40,17 @@ What is a site (one row per syntactic occurrence):
                     set-returning APIs, or a local name bound to one of those)
   owns-state /      Search.__init__: self._problem = copy.deepcopy(problem) present /   seeded /
   shared-state      absent (ConfigSpace's generator shared with other searches)         osEntropy
+  class-cache /     a mutable object (dict / list / set / ...) bound at CLASS level or MODULE level — or   processState
+  module-cache /    a mutable default argument, or an lru_cache / cache decorator — that a method / function
+  default-arg-cache WRITES (item assignment, append / update / setdefault / ..., rebinding through cls / the
+  / memo-cache      class name / `global`): state shared by every search of the interpreter, i.e. what an
+                    EARLIER search leaves behind is an input of a later one unless the key contains the seed
   clock             time.time()/perf_counter()/monotonic()/strftime()/...,        clock
                     datetime.now()/utcnow()/today()
   entropy           os.urandom / uuid.uuid1/uuid4 / secrets.* / os.getpid / id()  osEntropy
+  cpu-count         effective_n_jobs(..) / cpu_count() / os.cpu_count() /         osEntropy
+                    os.sched_getaffinity(..) / os.process_cpu_count(): how many CPUs the
+                    process may use is a property of the machine / container / affinity mask
 
 A `random_state=<name>` whose <name> is a parameter of the enclosing function is seeded only if the
 callers pass it: that is what `rng-param-omitted` checks at every call site inside the scanned files.
@@ -68,7 +80,12 @@ ANCHORS = [
     "deephyper/skopt/moo/_multiobjective.py",
 ]
 
-STREAMS = ["seeded", "numpyGlobal", "pythonGlobal", "scipyGlobal", "osEntropy", "hashSeed", "clock"]
+STREAMS = ["seeded", "numpyGlobal", "pythonGlobal", "scipyGlobal", "osEntropy", "hashSeed", "clock", "processState"]
+CACHE_KINDS = ("class-cache", "module-cache", "default-arg-cache", "memo-cache")
+MUTABLE_CTORS = {"dict", "list", "set", "defaultdict", "OrderedDict", "deque", "Counter", "WeakValueDictionary", "WeakKeyDictionary"}
+MUTATING_METHODS = {"append", "extend", "update", "setdefault", "add", "insert", "pop", "popitem", "clear", "remove", "discard",
+                    "appendleft", "extendleft", "sort", "reverse", "__setitem__", "__delitem__"}
+MEMO_DECORATORS = {"lru_cache", "cache", "cached", "memoize", "memoized"}
 
 NP_RANDOM_FUNCS_SEEDWRITE = {"seed", "set_state"}
 RNG_CTORS = {"RandomState", "default_rng", "Generator", "Random", "SystemRandom"}
@@ -79,9 +96,26 @@ RNG_METHODS = {
     "tomaxint", "random_integers", "logistic", "laplace", "multivariate_normal",
 }
 RNG_PARAM_NAMES = ("random_state", "rng")
+# third-party callables (imported by name from these packages) that take `random_state` and fall back to the global
+# NumPy generator without it; hand list (the scan does not import the libraries)
+EXT_PACKAGES = ("sklearn", "scipy", "skopt", "imblearn", "xgboost", "lightgbm")
+EXT_RNG_CALLABLES = {
+    "QuantileTransformer", "KBinsDiscretizer", "PowerTransformer", "SplineTransformer", "KMeans", "MiniBatchKMeans", "BisectingKMeans",
+    "SpectralClustering", "PCA", "KernelPCA", "TruncatedSVD", "FastICA", "NMF", "FactorAnalysis", "SparsePCA", "TSNE", "MDS",
+    "GaussianMixture", "BayesianGaussianMixture", "train_test_split", "resample", "shuffle", "ShuffleSplit", "StratifiedShuffleSplit",
+    "KFold", "StratifiedKFold", "RepeatedKFold", "permutation_importance", "RandomForestRegressor", "RandomForestClassifier",
+    "ExtraTreesRegressor", "ExtraTreesClassifier", "GradientBoostingRegressor", "GradientBoostingClassifier",
+    "HistGradientBoostingRegressor", "HistGradientBoostingClassifier", "DecisionTreeRegressor", "DecisionTreeClassifier",
+    "ExtraTreeRegressor", "BaggingRegressor", "AdaBoostRegressor", "IsolationForest", "GaussianProcessRegressor",
+    "GaussianProcessClassifier", "MLPRegressor", "MLPClassifier", "SGDRegressor", "SGDClassifier", "Ridge", "Lasso", "ElasticNet",
+    "LogisticRegression", "SVC", "LinearSVC", "RBFSampler", "Nystroem", "RandomizedSearchCV", "ParameterSampler",
+    "make_regression", "make_classification", "make_blobs", "IterativeImputer", "KernelDensity.sample", "differential_evolution",
+    "dual_annealing", "basinhopping", "shgo", "sample_without_replacement", "randomized_svd", "check_random_state_ext",
+}
 CLOCK_FUNCS = {"time", "time_ns", "perf_counter", "perf_counter_ns", "monotonic", "monotonic_ns", "strftime",
                "localtime", "gmtime", "ctime", "asctime", "process_time", "thread_time"}
 DATETIME_FUNCS = {"now", "utcnow", "today"}
+CPU_COUNT_FUNCS = {"cpu_count", "effective_n_jobs", "sched_getaffinity", "process_cpu_count"}
 SET_RETURNING_APIS = {
     "get_active_hyperparameters", "union", "intersection", "difference", "symmetric_difference",
     "get_all_unconditional_hyperparameters", "get_all_conditional_hyperparameters",
@@ -249,6 +283,7 @@ class _FileScan(ast.NodeVisitor):
         self.from_np_random = {}  # local name -> np.random function imported by `from numpy.random import f`
         self.from_time = {}
         self.callee_ids = set()
+        self.ext_names = {}  # local name -> "package.module.Name" for third-party callables that take random_state
         self._collect_imports()
 
     # -- imports decide what `random`, `time`, ... mean in this file
@@ -287,6 +322,8 @@ class _FileScan(ast.NodeVisitor):
                         self.from_np_random["__py__:" + nm] = a.name
                     if node.module == "uuid":
                         self.from_time["__uuid__:" + nm] = a.name
+                    if node.module and node.module.split(".")[0] in EXT_PACKAGES and a.name in EXT_RNG_CALLABLES:
+                        self.ext_names[nm] = f"{node.module}.{a.name}"
 
     # -- helpers
     def qual(self):
@@ -441,6 +478,8 @@ class _FileScan(ast.NodeVisitor):
                 self.add(node, "entropy", "osEntropy", f"uuid.{name}")
             elif d_recv in self.os_names and name in ("urandom", "getpid", "getppid"):
                 self.add(node, "entropy", "osEntropy", f"os.{name}")
+            elif name in CPU_COUNT_FUNCS:
+                self.add(node, "cpu-count", "osEntropy", f"{_txt(f, 40)}: the number of CPUs the process may use differs between machines / containers / affinity masks")
             elif d_recv in self.secrets_names:
                 self.add(node, "entropy", "osEntropy", f"secrets.{name}")
             elif name == "seed" and (node.args or node.keywords):
@@ -481,6 +520,8 @@ class _FileScan(ast.NodeVisitor):
                 else:
                     self.add(node, "crs", "seeded", f"check_random_state({_txt(arg, 40)})" + self._param_note(arg))
                 handled_rng_param = True
+            elif name in CPU_COUNT_FUNCS:
+                self.add(node, "cpu-count", "osEntropy", f"{name}(): the number of CPUs the process may use differs between machines / containers / affinity masks")
             elif name == "hash" and node.args:
                 self.add(node, "hash", "hashSeed", "hash() of str/bytes depends on PYTHONHASHSEED")
             elif name == "id" and len(node.args) == 1:
@@ -514,6 +555,16 @@ class _FileScan(ast.NodeVisitor):
                 self.callee_ids.add(id(f.args[0]))
             if cname in self.rng_funcs:
                 self._check_rng_param(node, cname, kwnames, has_star, is_attr=isinstance(f, ast.Attribute))
+            elif isinstance(f, ast.Name) and cname in self.ext_names:
+                rs = self._kw(node, "random_state")
+                if rs is not None and not (isinstance(rs, ast.Constant) and rs.value is None):
+                    self.add(node, "ext-param", "seeded", f"{self.ext_names[cname]}(random_state={_txt(rs, 40)})" + self._param_note(rs))
+                elif has_star:
+                    self.add(node, "rng-param-kwargs", "numpyGlobal", f"call of {self.ext_names[cname]} with *args/**kwargs: `random_state` cannot be verified")
+                else:
+                    self.add(node, "ext-param-omitted", "numpyGlobal",
+                             f"{self.ext_names[cname]} has a `random_state` parameter; without it, it draws from NumPy's process-global generator "
+                             "whenever it needs randomness (subsampling, initialisation, shuffling)")
         self.generic_visit(node)
 
     def _kw(self, node, name):
@@ -736,6 +787,31 @@ REACH_RULES = [
          guard=lambda src: _no_text(src, ["hpo/*.py", "skopt/optimizer/optimizer.py"], r"expected_minimum")),
     dict(name="pf-selftest", file="skopt/moo/_pf.py", func="<module>", kind="*", reach="unreachable",
          why="`if __name__ == '__main__'` self-test of _pf.py"),
+    # ---- third-party callables constructed without random_state ------------------------------------------
+    *[dict(name=f"gbrt-template-estimator-{i}", file=fl, func=fn, kind="ext-param-omitted", text=r"GradientBoostingRegressor\(",
+           reach="noFlow", stream="seeded",
+           why="template estimator of GradientBoostingQuantileRegressor: its fit() seeds the template with the wrapper's own generator "
+               "(`base_estimator.set_params(random_state=rng)`, rng = check_random_state(self.random_state)) before it is cloned and fitted; "
+               "the wrapper's random_state is checked by the rng-param rows (guard: that statement is still in gbrt.py, before the clone)",
+           guard=lambda src: _has_text(src, "skopt/learning/gbrt.py", r"rng = check_random_state\(self\.random_state\).*?base_estimator\.set_params\(random_state=rng\)"
+                                                                      r".*?regressor = clone\(base_estimator\)"))
+      for i, (fl, fn) in enumerate([("hpo/_cbo.py", "CBO._get_surrogate_model"), ("skopt/utils.py", "cook_estimator"),
+                                    ("skopt/learning/gbrt.py", "GradientBoostingQuantileRegressor.fit")])],
+    dict(name="forest-template-tree", file="skopt/learning/forest.py", func="*.__init__", kind="ext-param-omitted", text=r"^DecisionTreeRegressor\(\)$",
+         reach="noFlow", stream="seeded",
+         why="template tree handed to scikit-learn's forest constructor: the forest seeds every tree it builds from its own random_state "
+             "(BaseForest.fit -> _make_estimator(random_state=...)); the forest's random_state is checked by the rng-param rows "
+             "(guard: the constructor still forwards random_state=random_state to the scikit-learn base class)",
+         guard=lambda src: _has_text(src, "skopt/learning/forest.py", r"super\(\)\.__init__\(.*?DecisionTreeRegressor\(\),.*?random_state=random_state")),
+    dict(name="quantile-scaler-subsample-known-finding", file="skopt/utils.py", func="cook_objective_scaler", kind="ext-param-omitted",
+         text=r"QuantileTransformer\(", reach="outOfScope", conds=[("search", ["CBO"]), ("history", ["very-long"])],
+         why="KNOWN FINDING (known_findings.d/C07.json, repair on branch fix-c07): QuantileTransformer without random_state subsamples with "
+             "NumPy's global generator once it is fitted on more than `subsample` observations; with scikit-learn's default "
+             "subsample=10_000 this needs a history of more than 10 000 told observations (found dynamically by the very-long-history "
+             "scenarios of the thorough tier).  Classified not-live only so that the obligation stays checkable for every other row until the "
+             "repair is merged (the row is then `ext-param`, seeded).  Guard: the call still relies on the default threshold "
+             "(no subsample / n_quantiles argument)",
+         guard=lambda src: _has_text(src, "skopt/utils.py", r"QuantileTransformer\(output_distribution=\"uniform\"\)")),
     # ---- call sites whose RNG argument travels through **kwargs ------------------------------------------
     dict(name="cbo-optimizer-kwargs", file="hpo/_cbo.py", func="CBO._setup_optimizer", kind="rng-param-kwargs",
          reach="noFlow", stream="seeded",
@@ -752,6 +828,16 @@ REACH_RULES = [
 
 # wide rules for the imported periphery (evaluator, storage, analysis, ...): every site stays in the table
 PERIPHERY_RULES = [
+    # ---- process-level mutable state (class / module level objects written by the code): one justification per object
+    dict(name="evaluator-nest-asyncio-flag", file="evaluator/_evaluator.py", func="Evaluator.__init__", kind="class-cache",
+         text=r"NEST_ASYNCIO_PATCHED = True", reach="noFlow",
+         why="one-way flag 'the nest-asyncio patch has been applied' (IPython shells only): it decides whether the event loop is patched "
+             "a second time, never a value that reaches ask() (guard: the only other mention of the flag is that test)",
+         guard=lambda src: _has_text(src, "evaluator/_evaluator.py", r"if not \(Evaluator\.NEST_ASYNCIO_PATCHED\) and _test_ipython_interpretor\(\)")),
+    dict(name="mpi-win-storage-state", file="evaluator/storage/_mpi_win*", func="*", kind="class-cache", reach="outOfScope",
+         why="registry / counter of MPI one-sided windows: MPI storage is not in the property's matrix (memory storage, num_workers=1)"),
+    dict(name="ray-storage-counter", file="evaluator/storage/_ray_storage.py", func="*", kind="class-cache", reach="outOfScope",
+         why="names the Ray actor of a RayStorage; Ray storage is not in the property's matrix"),
     dict(name="evaluator-timestamps", file="evaluator/*", func="*", kind="clock",
          reach="noFlow", why="timestamps go to m:timestamp_* metadata / timeouts / log lines; ask() never reads them, "
                              "and the property fixes the sequence of calls (num_workers=1, no timeout)"),
@@ -844,6 +930,140 @@ def _state_ownership(trees, src):
     return out
 
 
+def _is_mutable_value(v):
+    if isinstance(v, (ast.Dict, ast.List, ast.Set, ast.ListComp, ast.DictComp, ast.SetComp)):
+        return True
+    return isinstance(v, ast.Call) and (_dotted(v.func) or "").split(".")[-1] in MUTABLE_CTORS
+
+
+def _bound_mutables(body):
+    """names bound to a mutable value by a plain assignment in `body` (a module or class body) -> the assignment"""
+    out = {}
+    for n in body:
+        if isinstance(n, ast.Assign) and _is_mutable_value(n.value):
+            for t in n.targets:
+                if isinstance(t, ast.Name) and t.id != "__all__":
+                    out[t.id] = n
+        elif isinstance(n, ast.AnnAssign) and isinstance(n.target, ast.Name) and n.value is not None and _is_mutable_value(n.value):
+            out[n.target.id] = n
+    return out
+
+
+def _functions(node, prefix=()):
+    """(qualname tuple, FunctionDef, enclosing ClassDef or None) for every function below `node`"""
+    for n in getattr(node, "body", []):
+        if isinstance(n, (ast.FunctionDef, ast.AsyncFunctionDef)):
+            yield prefix + (n.name,), n, node if isinstance(node, ast.ClassDef) else None
+            yield from ((q, f, c) for q, f, c in _functions(n, prefix + (n.name,)))
+        elif isinstance(n, ast.ClassDef):
+            yield from _functions(n, prefix + (n.name,))
+        elif isinstance(n, (ast.If, ast.Try, ast.With, ast.For, ast.While)):
+            yield from _functions(n, prefix)
+
+
+def _writes_in(fn):
+    """(kind of write, target expression, node) for every write inside function `fn` (nested functions excluded):
+    item / slice assignment and deletion, augmented assignment, mutating method call, attribute rebinding"""
+    out = []
+    stack = list(fn.body)
+    while stack:
+        n = stack.pop()
+        if isinstance(n, (ast.FunctionDef, ast.AsyncFunctionDef, ast.ClassDef, ast.Lambda)):
+            continue
+        stack.extend(ast.iter_child_nodes(n))
+        targets = []
+        if isinstance(n, ast.Assign):
+            targets = n.targets
+        elif isinstance(n, (ast.AugAssign, ast.AnnAssign)):
+            targets = [n.target]
+        elif isinstance(n, ast.Delete):
+            targets = n.targets
+        for t in targets:
+            for tt in (t.elts if isinstance(t, (ast.Tuple, ast.List)) else [t]):
+                if isinstance(tt, ast.Subscript):
+                    out.append(("item", tt.value, n))
+                elif isinstance(tt, (ast.Attribute, ast.Name)):
+                    out.append(("rebind", tt, n))
+        if isinstance(n, ast.Call) and isinstance(n.func, ast.Attribute) and n.func.attr in MUTATING_METHODS:
+            out.append(("method", n.func.value, n))
+    return out
+
+
+def _process_state(trees, src):
+    """process-level mutable state written by the scanned code: rows of kind class-cache / module-cache /
+    default-arg-cache / memo-cache on the hidden stream `processState`.  A class-level (or module-level) dict / list is
+    shared by every instance, hence by every search of the interpreter: what an earlier search stored there is an input
+    of a later one.  Only WRITES from functions / methods are rows (constants that are only read are not)."""
+    out = []
+    for f, tree in sorted(trees.items()):
+        rel = str(f.relative_to(src / "deephyper"))
+        mod_mut = _bound_mutables(tree.body)
+        mod_names = {t.id for n in tree.body if isinstance(n, (ast.Assign, ast.AnnAssign))
+                     for t in (n.targets if isinstance(n, ast.Assign) else [n.target]) if isinstance(t, ast.Name)}
+        classes = {c.name: c for c in ast.walk(tree) if isinstance(c, ast.ClassDef)}
+        cls_mut = {name: _bound_mutables(c.body) for name, c in classes.items()}
+        cls_names = {name: {t.id for n in c.body if isinstance(n, (ast.Assign, ast.AnnAssign))
+                            for t in (n.targets if isinstance(n, ast.Assign) else [n.target]) if isinstance(t, ast.Name)}
+                     for name, c in classes.items()}
+        # attributes a class rebinds per instance (`self.x = ...` in any of its methods) shadow the class-level object
+        inst_bound = {}
+        for name, c in classes.items():
+            b = set()
+            for _, fn, _ in _functions(c):
+                for kind, tgt, _ in _writes_in(fn):
+                    if kind == "rebind" and isinstance(tgt, ast.Attribute) and _dotted(tgt.value) == "self":
+                        b.add(tgt.attr)
+            inst_bound[name] = b
+
+        def row(kind, q, node, detail):
+            out.append(Site(rel, node.lineno, node.col_offset, ".".join(q), kind, _txt(node), "processState", detail))
+
+        for q, fn, cls in _functions(tree):
+            a = fn.args
+            params = {x.arg for x in a.posonlyargs + a.args + a.kwonlyargs} | ({a.vararg.arg} if a.vararg else set()) | ({a.kwarg.arg} if a.kwarg else set())
+            globals_decl = {nm for n in ast.walk(fn) if isinstance(n, ast.Global) for nm in n.names}
+            writes = _writes_in(fn)
+            local_names = {t.id for k, t, _ in writes if k == "rebind" and isinstance(t, ast.Name)} - globals_decl
+            # mutable default arguments
+            pos = a.posonlyargs + a.args
+            defaults = list(zip(pos[len(pos) - len(a.defaults):], a.defaults)) + [(x, d) for x, d in zip(a.kwonlyargs, a.kw_defaults) if d is not None]
+            mut_defaults = {x.arg for x, d in defaults if _is_mutable_value(d)}
+            for d in fn.decorator_list:
+                dn = (_dotted(d.func if isinstance(d, ast.Call) else d) or "").split(".")[-1]
+                if dn in MEMO_DECORATORS:
+                    row("memo-cache", q, d, f"@{dn}: results are remembered for the life of the interpreter, keyed by the arguments only")
+            for kind, tgt, node in writes:
+                if isinstance(tgt, ast.Name):
+                    nm = tgt.id
+                    if kind == "rebind":
+                        if nm in globals_decl and nm in mod_names | globals_decl:
+                            row("module-cache", q, node, f"rebinds the module-level name `{nm}` (global statement)")
+                    elif nm in mut_defaults and nm not in local_names:
+                        row("default-arg-cache", q, node, f"writes the mutable default value of parameter `{nm}` (one object for all calls)")
+                    elif nm in mod_mut and nm not in params and nm not in local_names:
+                        row("module-cache", q, node, f"writes the module-level {type(mod_mut[nm].value).__name__.lower()} `{nm}` (line {mod_mut[nm].lineno})")
+                elif isinstance(tgt, ast.Attribute):
+                    recv, attr = tgt.value, tgt.attr
+                    d = _dotted(recv) or ""
+                    via_class = None  # the class whose namespace the write goes to
+                    if d in ("cls", "self.__class__") or (isinstance(recv, ast.Call) and _dotted(recv.func) == "type"):
+                        via_class = cls.name if cls is not None else None
+                    elif d in classes:
+                        via_class = d
+                    if kind == "rebind":
+                        if via_class is not None:
+                            row("class-cache", q, node, f"rebinds the class attribute `{via_class}.{attr}` (shared by all instances)")
+                        continue
+                    owner = via_class
+                    if owner is None and d == "self" and cls is not None and attr not in inst_bound.get(cls.name, set()):
+                        owner = cls.name
+                    if owner is not None and attr in cls_mut.get(owner, {}):
+                        a0 = cls_mut[owner][attr]
+                        row("class-cache", q, node, f"writes the class-level {type(a0.value).__name__.lower()} `{owner}.{attr}` (line {a0.lineno}): "
+                                                    "one object shared by all instances of the interpreter")
+    return out
+
+
 # --------------------------------------------------------------------------- entry points
 
 
@@ -858,6 +1078,7 @@ def scan(src_root, extra_rules=()) -> Scan:
         v.visit(trees[f])
         sites.extend(v.sites)
     sites.extend(_state_ownership(trees, src))
+    sites.extend(_process_state(trees, src))
     # one row per (file, line, col, kind)
     uniq = {}
     for s in sites:
